@@ -91,6 +91,48 @@ class FuncView:
     def tests(self, pred):
         return [n for n in self.cfg.nodes if n.kind == "test" and pred(n.ast.test)]
 
+    def ptests(self, what):
+        """polarity-aware test lookup: `what` is the text of a condition (or a predicate on the condition's AST);
+        returns [(test node, label)] where label is the edge ("T"/"F") on which the condition HOLDS -- a test written
+        as the negation of `what` (`not X`, `a not in b` for `a in b`, ...) is found with the opposite label."""
+        from . import normalize
+        out = []
+        if callable(what):
+            for n in self.cfg.nodes:
+                if n.kind != "test":
+                    continue
+                t = n.ast.test
+                if what(t):
+                    out.append((n, "T"))
+                else:
+                    try:
+                        neg = normalize._BoolNF().visit(normalize._negate(ast.parse(ast.unparse(t), mode="eval").body))
+                    except Exception:
+                        continue
+                    if what(neg):
+                        out.append((n, "F"))
+            return out
+        want = normalize._BoolNF().visit(ast.parse(what, mode="eval").body)
+        neg = normalize._BoolNF().visit(normalize._negate(ast.parse(what, mode="eval").body))
+        dw, dn = src(want), src(neg)
+        for n in self.cfg.nodes:
+            if n.kind != "test":
+                continue
+            d = src(n.ast.test)
+            if d == dw:
+                out.append((n, "T"))
+            elif d == dn:
+                out.append((n, "F"))
+        return out
+
+    def under(self, targets, ptest, holds=True):
+        """every path to each target leaves the polarity-aware test `ptest` (an item of ptests()) on the edge where the
+        condition holds (or does not hold)"""
+        n, lab = ptest
+        if not holds:
+            lab = "F" if lab == "T" else "T"
+        return self.dominated_by_edge(targets, n, lab)
+
     def nodes(self, kind=None, pred=None):
         return [n for n in self.cfg.nodes if (kind is None or n.kind == kind)
                 and (pred is None or pred(n))]
@@ -422,3 +464,21 @@ def check_no_alias_escape(ctx, rule, attr, allowed, why=""):
                   "container .%s is reachable (aliasable) outside its owner %s: %s" % (attr, sorted(allowed), why),
                   detail="%s in %s" % (src(parent(n))[:80], q))
     return k
+
+
+def member_test(t):
+    """normal form of a membership/equality test of a plain operand against constants:
+    `x in (A, B)`, `x == A` (either order) -> (dotted(x), frozenset of dotted constant names), else None.
+    (`x == A or x == B` is rewritten to the tuple form by sa/normalize.py N1 before any rule runs)"""
+    from .model import dotted
+    if isinstance(t, ast.Compare) and len(t.ops) == 1:
+        if isinstance(t.ops[0], ast.In) and isinstance(t.comparators[0], (ast.Tuple, ast.List, ast.Set)):
+            subj = dotted(t.left)
+            names = [dotted(e) for e in t.comparators[0].elts]
+            if subj and all(names):
+                return subj, frozenset(names)
+        if isinstance(t.ops[0], ast.Eq):
+            a, b = dotted(t.left), dotted(t.comparators[0])
+            if a and b:
+                return (a, frozenset([b])) if not a.isupper() else (b, frozenset([a]))
+    return None
